@@ -326,6 +326,9 @@ func (m *Model) Do(op drv.Op) drv.Resp {
 			return reject(drv.ENotFound)
 		}
 		delete(t.Indexes, op.Index)
+		if op.IdxCfg != nil {
+			t.AttrDefs[op.IdxCfg.Hash] = op.IdxCfg.HashT
+		}
 		return drv.Resp{Desc: t.desc()}
 	case drv.KClear:
 		t, ok := m.Tables[op.Table]
@@ -419,10 +422,7 @@ func condCheck(op drv.Op, stored val.Item) *drv.Resp {
 		return nil
 	}
 	mask := condMask(op.Cond, stored, op)
-	switch mask {
-	case rx.T:
-		return nil
-	case rx.F:
+	ccf := func() drv.Resp {
 		r := drv.Resp{Err: drv.ECCF}
 		if op.RetOnFail {
 			r.CCFItem = stored.Clone()
@@ -430,14 +430,25 @@ func condCheck(op drv.Op, stored val.Item) *drv.Resp {
 				r.CCFItem = val.Item{}
 			}
 		}
+		return r
+	}
+	switch mask {
+	case rx.T:
+		return nil
+	case rx.F:
+		r := ccf()
 		return &r
 	case rx.E:
 		r := reject(drv.EAnyReject)
 		return &r
+	case rx.F | rx.E:
+		// refused either way; which of the two classes is not demanded
+		r := drv.Resp{ErrSet: []string{drv.ECCF, drv.EAnyReject}}
+		return &r
 	}
-	// ambiguous acceptance set: not used by E1 alphabets
-	r := drv.Resp{ErrSet: []string{"", drv.ECCF, drv.EAnyReject}, NoItemCmp: true}
-	return &r
+	// acceptance set containing T and something else: the model cannot tell whether the write
+	// happens; alphabets of E1 checks avoid such conditions
+	panic("model: ambiguous write condition " + op.Cond.String() + " " + rx.MaskString(mask))
 }
 
 func (m *Model) put(op drv.Op) drv.Resp {
